@@ -494,8 +494,9 @@ inline void runC06(Ctx &c)
                     }
                     c.check("C06.partial_by_coeffs_vs_definition", wc, 1e-11, gkey(p, "partial_coeffs"));
                     c.check("C06.partial_by_times_vs_definition", wt, 1e-11, gkey(p, "partial_times"));
-                    // propagating the partials reproduces the analytic gradients
-                    Grads pr = s->propagate(pc, pt, r.coin());
+                    // propagating the partials reproduces the analytic gradients (also with the in-place idiom: the time
+                    // partial written into the receiving object's `times` and passed from there)
+                    Grads pr = r.coin(0.3) ? s->propagateAliasedTimes(pc, pt) : s->propagate(pc, pt, r.coin());
                     if (c.require("C06.propagate_shape", gradsShapeOk(pr, p), gkey(p, "shape")))
                     {
                         GroupAcc acc;
@@ -588,6 +589,19 @@ inline void runC13(Ctx &c)
                     }
                 if (p.P.col(hot).cwiseAbs().maxCoeff() == 0)
                     p.P(r.range(0, p.N), hot) = 1.5;
+            }
+            if (!onehot && p.dim > 1 && r.coin(0.15))
+            {
+                // coordinates of wildly different magnitude (metres next to nanometres): each must still be its own 1-D spline
+                int j = r.range(0, p.dim - 1);
+                double sf = std::pow(10.0, -(double)r.range(10, 16));
+                p.P.col(j) *= sf;
+                for (int d = 1; d <= 3; ++d)
+                {
+                    p.bc.s(d)(j) *= sf;
+                    p.bc.e(d)(j) *= sf;
+                }
+                c.event("data.coordinate_scaled_down");
             }
             Upstream u = genUpstream(r, p, onehot ? 0 : (int)(idx % 6));
             if (onehot)
@@ -1085,7 +1099,7 @@ inline Observables observe(ISpline &s, const Upstream &u, const std::vector<doub
     if (withPropagate)
     {
         o.pg1 = s.propagate(u.gC, u.gT, false);
-        o.pg2 = s.propagate(o.pc, o.pt, true);
+        o.pg2 = s.propagateIntoStale(o.pc, o.pt, 3); // reference overload into an object that holds another problem's result
     }
     const int nc = s.trajNumCoeffs();
     o.evals.resize(ts.size() * (nc + 1), s.dim());
@@ -1178,7 +1192,8 @@ inline void runC10(Ctx &c)
                         if (k == 0)
                         {
                             cur.T = old.T;
-                            cur.t0 = old.t0;
+                            if (r.coin())
+                                cur.t0 = old.t0; // else: the same durations from another start time
                         }
                         else if (k == 4)
                         {
